@@ -4,6 +4,7 @@ Each entry: (keyword in the commit subject, property, what failed before the fix
 import json, subprocess, os
 ROOT = os.path.dirname(os.path.dirname(os.path.abspath(__file__)))
 M = [
+ ('loop with an empty body never noticed', 'C10', '`fn main() { loop { } }` on the interpreter: no statement or expression is evaluated per iteration, so the context was never polled and Run never returned after cancellation'),
  ('VM integer remainder by zero', 'C02', '`1 % 0` on the VM: Go panic "integer divide by zero" in runInstruction'),
  ('interpreter integer division and remainder', 'C02', '`1 / 0`, `1 % 0` on the interpreter: Go panic "integer divide by zero" in infixHelper'),
  ('shifting by a negative amount', 'C02', '`1 << -1`, `1 >> -1` on both backends: Go panic "negative shift amount"'),
